@@ -1,5 +1,8 @@
 import Driver.Codec
-import PanderaModel.Props.C18
+import PanderaModel.Config
+import PanderaModel.DepthParts
+import PanderaModel.Generated.ScopeMap
+import PanderaModel.Generated.EnvConfig
 open Lean Pandera
 
 deriving instance FromJson, ToJson for Cfg
